@@ -373,7 +373,14 @@ func checkWireLinks(e *Env, sim *Sim, c2sL, s2cL []*Link, connDied bool) {
 				continue
 			}
 			if st == nil || !st.trailer {
-				e.Violate(prop, "missing-trailer", "server", "id %d (call %d): handler returned on a live connection, caller never reset, but no trailer was emitted", k.id, c)
+				site := "server"
+				if rec.Ctx != nil && rec.Ctx.Err() != nil {
+					// the caller's context has ended, so its teardown tried to reset the
+					// stream; the reset never reached the wire (known finding F05) and the
+					// server skipped the trailer because the handler's own deadline had fired
+					site = "caller-context-ended-reset-not-on-wire"
+				}
+				e.Violate(prop, "missing-trailer", site, "id %d (call %d): handler returned on a live connection, no reset from the caller is on the wire, but no trailer was emitted", k.id, c)
 			}
 		}
 	}
